@@ -728,6 +728,11 @@ pub fn run_check(prop: &Property, tier: Tier, seed: u64) -> CheckResult {
             }
         }
         for (v, case) in c.violations {
+            if case["part"] == "prog" {
+                // a program-tier finding is byte-driven: keep its own replay record
+                custom_violations.push(case.clone());
+                continue;
+            }
             custom_violations.push(json!({
                 "property": prop.id, "part": "custom", "tier": tier.name(), "seed": seed,
                 "signature": v.signature, "clause": v.clause, "step": v.step,
